@@ -62,7 +62,7 @@ static inline _Bool spa_E_shape(struct vec_vec_I E)
   for (U_t i = 0; i < XT_N; i++)
   {
     if (E.e[i].n != XT_N) return 0;
-    for (U_t j = 0; j < XT_N; j++) if (!(E.e[i].e[j] == XT_INF || (E.e[i].e[j] >= -XT_R && E.e[i].e[j] <= XT_R))) return 0;
+    for (U_t j = 0; j < XT_N; j++) if (!(E.e[i].e[j] == XT_INF || (i != j && E.e[i].e[j] >= -XT_R && E.e[i].e[j] <= XT_R))) return 0;   /* no self edges */
   }
   return 1;
 }
@@ -93,6 +93,14 @@ static inline struct vec_vec_I spa_E_with(struct vec_vec_I E, U_t from, U_t to, 
     for (U_t j = 0; j < XT_N; j++)
       if (i == from && j == to) E.e[i].e[j] = dist;
   return E;
+}
+static inline _Bool spa_rec(struct vec_vec_I D, struct vec_vec_U P, struct vec_vec_I E, U_t from, U_t to, I_t dist)
+{
+  xt_recu(1, (unsigned long)from); xt_recu(2, (unsigned long)to); xt_rec(3, dist);
+  for (U_t i = 0; i < XT_N; i++)
+    for (U_t j = 0; j < XT_N; j++)
+    { xt_rec(100 + (int)(i * XT_N + j), D.e[i].e[j]); xt_recu(200 + (int)(i * XT_N + j), (unsigned long)P.e[i].e[j]); xt_rec(300 + (int)(i * XT_N + j), E.e[i].e[j]); }
+  return 1;
 }
 static inline _Bool spa_D_eq_except(struct vec_vec_I a, struct vec_vec_I b, U_t fi, U_t fj, I_t val)
 {
